@@ -1,4 +1,5 @@
 import MmtkModel.Model.CasBit
+import MmtkModel.Model.CasBitTie
 import Mathlib.Tactic.SplitIfs
 /-!
 # C18 — Concurrent mark / log / pin state changes succeed exactly once
@@ -275,6 +276,150 @@ example :
       [.thread 0, .thread 1, .thread 0, .thread 1, .env 8, .thread 0, .thread 1, .thread 1, .thread 2, .thread 0,
        .thread 0, .thread 0, .thread 1, .thread 1, .thread 1]
     s.pc 0 = .ret true ∧ s.pc 1 = .ret false ∧ s.pc 2 = .l2 0 ∧ s.sh.field = 1 ∧ s.sh.winner = some 0 := by
+  decide
+
+
+/-! ## the tie: the executable verdict on real-thread races is a consequence of the theorems above -/
+
+theorem filter_len_le_one (p : Nat → Bool) (huniq : ∀ x y, p x = true → p y = true → x = y) :
+    ∀ (l : List Nat), l.Nodup → (l.filter p).length ≤ 1 := by
+  intro l
+  induction l with
+  | nil => intro _; simp
+  | cons a l ih =>
+    intro hnd
+    have hnd' := List.nodup_cons.mp hnd
+    by_cases hpa : p a = true
+    · have hnil : l.filter p = [] := by
+        rw [List.filter_eq_nil_iff]
+        intro y hy hpy
+        have := huniq y a hpy hpa
+        exact hnd'.1 (this ▸ hy)
+      simp [List.filter_cons, hpa, hnil]
+    · have := ih hnd'.2
+      simpa [List.filter_cons, hpa] using this
+
+theorem filter_len_pos (p : Nat → Bool) (l : List Nat) (w : Nat) (hw : w ∈ l) (hp : p w = true) :
+    1 ≤ (l.filter p).length :=
+  List.length_pos_of_mem (List.mem_filter.mpr ⟨hw, hp⟩)
+
+theorem entry_not_ret (P : Proto) (b : Bool) : P.entry ≠ .ret b := by
+  unfold Proto.entry; split <;> simp
+
+/-- **C18 (tie)** Every finished run — threads `0..n-1` (any `n ≥ 1`) have all returned, no other
+thread ever moved; `env` says whether the environment touched the neighbouring bits — has an outcome
+accepted by the executable predicate `outcomeOk` the check evaluates on real-thread races:
+looping variants: exactly one `true` and the field is transitioned (none if it already was);
+single-shot without neighbour interference from the expected value: exactly one `true`;
+otherwise at most one `true`, and the field changed iff somebody returned `true`. -/
+theorem outcome_sound {P : Proto} (hP : P.WF) {f0 o0 : Nat} {s : State} (h : Reachable P f0 o0 s) (n : Nat)
+    (hn : 0 < n) (hfin : ∀ x, x < n → ∃ b, s.pc x = .ret b) (hidle : ∀ x, n ≤ x → s.pc x = P.entry) :
+    outcomeOk P f0 s.sh.field (trues n s) s.sh.envMoved = true := by
+  have inv := reachable_inv hP h
+  have hle : trues n s ≤ 1 := by
+    unfold trues
+    apply filter_len_le_one _ _ _ List.nodup_range
+    intro x y hx hy
+    exact at_most_one_true hP h x y (by simpa using hx) (by simpa using hy)
+  have hlt : ∀ w, s.pc w = .ret true → w < n := by
+    intro w hw
+    by_cases hwn : w < n
+    · exact hwn
+    · have := hidle w (by omega); rw [this] at hw; exact absurd hw (entry_not_ret P true)
+  have hpos : ∀ w, s.pc w = .ret true → trues n s = 1 := by
+    intro w hw
+    have : 1 ≤ trues n s := by
+      unfold trues
+      exact filter_len_pos _ _ w (List.mem_range.mpr (hlt w hw)) (by simpa using hw)
+    omega
+  have hzero : s.sh.winner = none → trues n s = 0 := by
+    intro hwn
+    unfold trues
+    rw [List.length_eq_zero_iff, List.filter_eq_nil_iff]
+    intro x _ hx
+    have hx' : s.pc x = .ret true := by simpa using hx
+    have lx := inv.l x
+    rw [hx'] at lx
+    have : s.sh.winner = some x := lx
+    rw [hwn] at this; cases this
+  -- the two possible shapes of a finished state
+  have shape : (trues n s = 0 ∧ s.sh.field = f0 ∧ s.sh.winner = none) ∨
+      (trues n s = 1 ∧ s.sh.field = P.next f0 ∧ P.isDone f0 = false) := by
+    cases hwin : s.sh.winner with
+    | none => exact Or.inl ⟨hzero hwin, inv.g.unchanged hwin, rfl⟩
+    | some w =>
+      have hw := winner_returns_true hP h w hwin
+      have := true_means_transition hP h w hw
+      exact Or.inr ⟨hpos w hw, this.1, this.2.2⟩
+  obtain ⟨b0, hb0⟩ := hfin 0 hn
+  unfold outcomeOk
+  cases hs : P.single with
+  | false =>
+    simp only [Bool.false_eq_true, if_false]
+    cases hd : P.isDone f0 with
+    | true =>
+      simp only [if_true]
+      rcases shape with ⟨h1, h2, _⟩ | ⟨_, _, h3⟩
+      · simp [h1, h2]
+      · rw [hd] at h3; cases h3
+    | false =>
+      simp only [Bool.false_eq_true, if_false]
+      rcases shape with ⟨_, _, h3⟩ | ⟨h1, h2, _⟩
+      · -- nobody won although the object was not yet transitioned: impossible once thread 0 returned
+        exfalso
+        cases b0 with
+        | true =>
+          have l0 := inv.l 0; rw [hb0] at l0
+          have : s.sh.winner = some 0 := l0
+          rw [h3] at this; cases this
+        | false =>
+          obtain ⟨w, hw, _⟩ := (false_means_done hP hs h 0 hb0).2 hd
+          rw [h3] at hw; cases hw
+      · simp [h1, h2]
+  | true =>
+    simp only [if_true]
+    by_cases hc : (!s.sh.envMoved && f0 == P.old0) = true
+    · simp only [hc, if_true]
+      have he : s.sh.envMoved = false := by
+        cases hem : s.sh.envMoved <;> simp [hem] at hc ⊢
+      have hf : f0 = P.old0 := by
+        have : (f0 == P.old0) = true := by
+          cases hem : s.sh.envMoved <;> simp [hem] at hc ⊢
+          exact hc
+        simpa using this
+      rcases shape with ⟨_, _, h3⟩ | ⟨h1, h2, _⟩
+      · exfalso
+        subst hf
+        cases b0 with
+        | true =>
+          have l0 := inv.l 0; rw [hb0] at l0
+          have : s.sh.winner = some 0 := l0
+          rw [h3] at this; cases this
+        | false =>
+          obtain ⟨w, _, hw⟩ := single_shot_false_has_winner hP hs h he 0 hb0
+          have lw := inv.l w; rw [hw] at lw
+          have : s.sh.winner = some w := lw
+          rw [h3] at this; cases this
+      · simp [h1, h2]
+    · have hc' : (!s.sh.envMoved && f0 == P.old0) = false := by
+        cases hcc : (!s.sh.envMoved && f0 == P.old0) with
+        | true => exact absurd hcc hc
+        | false => rfl
+      simp only [hc', Bool.false_eq_true, if_false]
+      rcases shape with ⟨h1, h2, _⟩ | ⟨h1, h2, _⟩
+      · simp [h1, h2]
+      · simp [h1, h2]
+
+theorem unpinProto_wf : unpinProto.WF := ⟨fun _ _ => by simp [unpinProto], by simp [unpinProto]⟩
+theorem losNurseryProto_wf : (losNurseryProto 1).WF :=
+  ⟨fun v _ => by simp [losNurseryProto], by simp [losNurseryProto]⟩
+
+/-- `outcomeOk` is not vacuous: two winners, no winner, or a wrong final field are rejected. -/
+example : outcomeOk (markProto 1) 0 1 1 true = true ∧ outcomeOk (markProto 1) 0 1 2 false = false ∧
+    outcomeOk (markProto 1) 0 1 0 false = false ∧ outcomeOk (markProto 1) 0 0 1 false = false ∧
+    outcomeOk (markProto 1) 1 1 0 false = true ∧ outcomeOk (markProto 1) 1 1 1 false = false ∧
+    outcomeOk pinProto 0 1 1 false = true ∧ outcomeOk pinProto 0 0 0 false = false ∧
+    outcomeOk pinProto 0 0 0 true = true ∧ outcomeOk pinProto 0 1 2 true = false := by
   decide
 
 end Mmtk.CasBit
